@@ -43,6 +43,7 @@ def _events():
     evs.append(["swapfail", "FOO", "s"])
     evs.append(["exit", "return"])
     evs.append(["exit", "raise"])
+    evs.append(["exit", "raise-base"])  # SystemExit / KeyboardInterrupt: `exit` inside an alias, ctrl-c
     for k in KEYS:
         for v in SET_VALS[k]:
             evs.append(["set", k, v])
@@ -53,6 +54,10 @@ def _events():
 
 
 class _Boom(Exception):
+    pass
+
+
+class _BaseBoom(BaseException):
     pass
 
 
@@ -314,10 +319,11 @@ class Harness:
             if ev[1] == "return":
                 cm.__exit__(None, None, None)
             else:
-                exc = _Boom("x")
+                cls = _Boom if ev[1] == "raise" else _BaseBoom
+                exc = cls("x")
                 try:
-                    swallowed = cm.__exit__(_Boom, exc, None)
-                except _Boom:
+                    swallowed = cm.__exit__(cls, exc, None)
+                except cls:
                     swallowed = False
                 if swallowed and check:
                     viols.append({"key": "exit-by-exception-propagates", "clause": "exception leaves the scope", "case": {}, "observed": "swallowed", "expected": "propagates"})
